@@ -16,7 +16,9 @@ def finding_matches(f, prop, v):
     if f["property"] != prop: return False
     if f.get("harness") and f["harness"] != v["harness"]: return False
     if f.get("harness_prefix") and not v["harness"].startswith(f["harness_prefix"]): return False
-    if f["check"] != v["check"]: return False
+    if "check" in f and f["check"] != v["check"]: return False
+    if f.get("check_prefix") and not v["check"].startswith(f["check_prefix"]): return False
+    if f.get("any_tags") and not any(t in v["tags"] for t in f["any_tags"]): return False
     for t in f.get("tags", []):
         if t not in v["tags"]: return False
     for t in f.get("not_tags", []):
